@@ -510,6 +510,26 @@ def suite_C11():
                     exp = 'ERR'
                 cases.append(('z%d' % k, '(%s)[%s]' % (e, lit(i)), exp, dict(stream_of=py, dropped=d, index=i)))
                 k += 1
+    # repeat(x): an infinite constant list; bounds counted from either end
+    for lo in [None, 0, 2, 5, -1, -3]:
+        for hi in [None, 0, 3, 6, -1, -2]:
+            sl = '(repeat(7))[%s:%s]' % ('' if lo is None else lit(lo), '' if hi is None else lit(hi))
+            lneg, hneg = (lo is not None and lo < 0), (hi is None or hi < 0)
+            if lneg == hneg:
+                a = 0 if lo is None else lo
+                b = 0 if hi is None else hi          # hi is None pairs with a negative lo: the last -lo elements
+                cnt = max((b - a), 0)
+                cases.append(('rp%d' % k, 'list(%s)' % sl, '[%s]' % ', '.join(['7'] * cnt), dict(stream='repeat(7)', lo=lo, hi=hi, what='slice')))
+            elif lneg:
+                cases.append(('rp%d' % k, 'list(%s)' % sl, '[]', dict(stream='repeat(7)', lo=lo, hi=hi, what='slice from the end to the front')))
+            else:
+                cases.append(('rp%d' % k, '(%s)[10]' % sl, '7', dict(stream='repeat(7)', lo=lo, hi=hi, what='slice to the infinite end is still infinite')))
+            k += 1
+    for i in [0, 5, -1, 2**62, -2**62]:
+        cases.append(('ri%d' % k, '(repeat(7))[%s]' % lit(i), '7', dict(stream='repeat(7)', index=i)))
+        k += 1
+    cases.append(('rf%d' % k, 'reverse(repeat(7))[3]', '7', dict(stream='repeat(7)', what='reversal of the constant stream')))
+    k += 1
     return '', cases
 
 
